@@ -92,6 +92,12 @@ def make_twin(rep, N, D, body):
 def obligations(tier, seed):
     from props.internal import c04_internal
     obs = fp_obligations(tier, seed) + c04_internal(tier)
+    if tier == 'thorough':
+        import os
+        obs.append(Ob(id='C04.lemma.euclid', prop='C04', group='C04.lemma', prelude='', wrappers=[], inputs=[], body='', kind='S', budget=1800,
+                      dfcc=dict(tool='lean', file=os.path.join(os.path.dirname(os.path.dirname(os.path.dirname(os.path.abspath(__file__)))), 'lemmas', 'Euclid.lean')),
+                      contract="Euclid's lemma (gcd(D,N)=1 ==> (D | x*N <=> D | x)) and `x tmod D = 0 <=> D | x`, machine-checked by Lean 4 + Mathlib: justifies stating "
+                               "'value x N/D is not an integer' as 'x % D != 0' in the C03/C04 contracts"))
     for k, (rep, N, D) in enumerate(instances(tier, seed)):
         ct = G.ctype(rep)
         pre, ws, tag = wrappers(rep, N, D)
